@@ -7,13 +7,14 @@ A unit template (contracts/<unit>.rs.in) is ordinary Rust/Verus text with direct
   //@ fn <file> | <container header or -> | <fn name> [| ret=<name>] [| as=<new name>] [| nth=<k>]
   //@   spec            lines that follow are spliced between signature and body
   //@   loop <n>        ... after the header of the n-th loop (1-based, textual order)
+  //@   iter <n> <name> names the ghost iterator of the n-th loop (`for x in name: expr`)
   //@   entry           ... right after the opening brace of the body
   //@   after <k> /re/  ... right after the end of the k-th match of re in the body
   //@   before <k> /re/ ... right before the start of the k-th match
   //@ end
 
 Signature and body are copied verbatim from the working tree, then the documented rewrite rules
-(R1 err-text, R2 attributes/visibility, R6 let-chains, R7 named return, R8 Self::Item expansion) are applied by pattern and
+(R1 err-text, R2 attributes/visibility, R6 let-chains, R7 named return, R8 Self::Item expansion, R9 `|_|` closure parameter named) are applied by pattern and
 counted.  Everything the template adds is ghost (requires/ensures/invariant/decreases/proof).
 A directive whose anchor cannot be found raises AnchorError => the unit is 'undecided'.
 """
@@ -268,6 +269,15 @@ def splice(body, sections):
             if n < 1 or n > len(loops):
                 raise AnchorError(f"loop {n} not found ({len(loops)} loops)")
             inserts.append((loops[n - 1], "\n" + text + "\n"))
+        elif kind == "iter":
+            n, name = arg
+            kws = [mt for mt in re.finditer(r"\b(loop|while|for)\b", m)]
+            if n < 1 or n > len(kws) or kws[n - 1].group(1) != "for":
+                raise AnchorError(f"iter {n}: not a for loop")
+            im = re.compile(r"\bin\b").search(m, kws[n - 1].end())
+            if not im:
+                raise AnchorError("for without in")
+            inserts.append((im.end(), f" {name}:"))
         elif kind in ("after", "before"):
             k, rx = arg
             hits = [h for h in re.finditer(rx, body) if m[h.start()] != " " or body[h.start()] == " "]
@@ -374,7 +384,7 @@ def build_unit(template, repo, out_path, contracts_dir=None, vacuity=False):
             if i >= len(lines):
                 raise ValueError(f"unterminated //@ fn {name}")
             sl = lines[i]
-            sm = re.match(r"\s*//@\s*(spec|loop|entry|after|before|end)\b\s*(.*)$", sl)
+            sm = re.match(r"\s*//@\s*(spec|loop|iter|entry|after|before|end)\b\s*(.*)$", sl)
             if sm:
                 if cur:
                     sections.append((cur[0], cur[1], "\n".join(cur[2])))
@@ -390,6 +400,11 @@ def build_unit(template, repo, out_path, contracts_dir=None, vacuity=False):
                     cur = [k, (int(am.group(1)), am.group(2)), []]
                 elif k == "loop":
                     cur = [k, rest, []]
+                elif k == "iter":
+                    # `//@ iter <n> <name>`: name the ghost iterator of the n-th loop (a `for`): ghost only
+                    n_, name_ = rest.split()
+                    sections.append(("iter", (int(n_), name_), ""))
+                    cur = None
                 else:
                     cur = [k, None, []]
             else:
@@ -406,6 +421,23 @@ def build_unit(template, repo, out_path, contracts_dir=None, vacuity=False):
         body = rule_R2(body, local)
         body = rule_R1(body, local)
         body = rule_R6(body, local)
+        if opts.get("expect") == "unchecked":
+            # R10 (opt-in, counted): `.expect(msg)` -> `.expect_unchecked(msg)`, a prelude method
+            # without precondition: a panic from this expect is NOT decided by the unit (the model
+            # continues with an arbitrary value, which can only make obligations harder, never easier)
+            m10 = mask(body)
+            hits = [h.start() for h in re.finditer(r"\.expect\(", m10)]
+            for h in reversed(hits):
+                body = body[:h] + ".expect_unchecked(" + body[h + 8:]
+            if hits:
+                local["R10"] = local.get("R10", 0) + len(hits)
+        # R9: an ignored closure parameter `|_|` is given a name (Verus accepts only variables there)
+        m9 = mask(body)
+        hits = [h.start() for h in re.finditer(r"\|_\|", m9)]
+        for h in reversed(hits):
+            body = body[:h] + "|_ignored|" + body[h + 3:]
+        if hits:
+            local["R9"] = local.get("R9", 0) + len(hits)
         if "Self::Item" in sig:
             # R8: the associated type is replaced by its definition in the same impl block
             tm = re.search(r"\btype\s+Item\s*=\s*([^;]+);", m[cs:ce])
